@@ -27,12 +27,13 @@ const (
 	mLate          // no reply now; the reply is sent when the next request of the same caller arrives (or at the end)
 	mNever         // never reply
 	mDie           // terminate without replying
+	mFlood         // never reply, while another process keeps sending replies that carry the reference of an earlier, completed request of this caller for the whole timeout
 	nModes
 )
 
-var modeName = []string{"now", "send", "self", "third", "err", "twice", "stale", "cross", "late", "never", "die"}
+var modeName = []string{"now", "send", "self", "third", "err", "twice", "stale", "cross", "late", "never", "die", "flood"}
 
-func slow(m int) bool { return m == mLate || m == mNever || m == mDie }
+func slow(m int) bool { return m == mLate || m == mNever || m == mDie || m == mFlood }
 
 // Req is the request payload; Rep the reply. Both embed the request's unique id.
 type Req struct {
@@ -55,6 +56,12 @@ type deferred struct {
 
 type flush struct{}
 
+type floodReq struct {
+	From gen.PID
+	Ref  gen.Ref
+	ID   int
+}
+
 func errFor(id int) error { return fmt.Errorf("callee-error-%d", id) }
 
 type calleeState struct {
@@ -63,11 +70,12 @@ type calleeState struct {
 	lastDone map[gen.PID]deferred
 	current  map[gen.PID]deferred
 	helper   gen.PID
+	flooder  gen.ProcessFactory
 	staleOut int // stale replies actually handed over (SendResponse returned nil)
 }
 
-func newCalleeState(helper gen.PID) *calleeState {
-	return &calleeState{late: map[gen.PID][]deferred{}, lastDone: map[gen.PID]deferred{}, current: map[gen.PID]deferred{}, helper: helper}
+func newCalleeState(helper gen.PID, flooder gen.ProcessFactory) *calleeState {
+	return &calleeState{late: map[gen.PID][]deferred{}, lastDone: map[gen.PID]deferred{}, current: map[gen.PID]deferred{}, helper: helper, flooder: flooder}
 }
 
 func (st *calleeState) onCall(a *kit.Actor, from gen.PID, ref gen.Ref, request any) (any, error) {
@@ -137,6 +145,15 @@ func (st *calleeState) onCall(a *kit.Actor, from gen.PID, ref gen.Ref, request a
 	case mLate:
 		st.late[from] = append(st.late[from], me)
 	case mNever:
+	case mFlood:
+		if d, ok := st.lastDone[from]; ok {
+			// one flooder per flooded call (they must not queue behind each other)
+			if fl, err := a.Spawn(st.flooder, gen.ProcessOptions{}); err == nil {
+				if a.Send(fl, floodReq{From: from, Ref: d.Ref, ID: d.ID}) == nil {
+					st.staleOut++
+				}
+			}
+		}
 	case mDie:
 		rerr = errors.New("callee dies without replying")
 	}
@@ -263,7 +280,7 @@ func TestCorrelation(t *testing.T) {
 						o.Burn = rapid.SampledFrom([]int{0, 0, 16, 17, 18, 17, 18, 19}).Draw(t, "burn")
 					}
 				}
-				mode := rapid.SampledFrom([]int{mNow, mNow, mSend, mSelf, mThird, mErr, mTwice, mTwice, mStale, mStale, mCross, mCross, mLate, mLate, mLate, mNever, mDie}).Draw(t, "mode")
+				mode := rapid.SampledFrom([]int{mNow, mNow, mSend, mSelf, mThird, mErr, mTwice, mTwice, mStale, mStale, mCross, mCross, mLate, mLate, mLate, mNever, mFlood, mDie}).Draw(t, "mode")
 				if slow(mode) {
 					if slowBudget == 0 {
 						mode = mNow
@@ -282,6 +299,8 @@ func TestCorrelation(t *testing.T) {
 					o.Addr = 2
 					switch mode {
 					case mNow, mThird, mSelf, mNever, mLate, mDie:
+					case mFlood:
+						mode = mNever
 					default:
 						mode = mNow
 					}
@@ -309,6 +328,18 @@ func TestCorrelation(t *testing.T) {
 		if err != nil {
 			t.Fatalf("spawn helper: %v", err)
 		}
+		// keeps a stale reply in the caller's response channel for the whole timeout of the
+		// request that is never answered: whatever instant the timer fires at, one is there
+		flooder := kit.Factory(&kit.ActorConfig{Label: "flooder", Probe: probe, Quiet: true,
+			OnMessage: func(a *kit.Actor, from gen.PID, msg any) (bool, error) {
+				if f, ok := msg.(floodReq); ok {
+					for t0 := time.Now(); time.Since(t0) < 1150*time.Millisecond; {
+						a.SendResponse(f.From, f.Ref, Rep{ID: f.ID, By: "stale"})
+					}
+					return true, gen.TerminateReasonNormal
+				}
+				return false, nil
+			}})
 		calleePID := make([]gen.PID, ncallees)
 		calleeAlias := make([]gen.Alias, ncallees)
 		calleeName := []gen.Atom{"callee0", "callee1"}
@@ -318,7 +349,7 @@ func TestCorrelation(t *testing.T) {
 		defer close(metaStop)
 		for i := 0; i < ncallees; i++ {
 			i := i
-			st := newCalleeState(helper)
+			st := newCalleeState(helper, flooder)
 			states[i] = st
 			calleePID[i], err = node.SpawnRegister(calleeName[i], kit.Factory(&kit.ActorConfig{Label: fmt.Sprintf("callee%d", i), Probe: probe,
 				OnCall:    st.onCall,
@@ -366,6 +397,9 @@ func TestCorrelation(t *testing.T) {
 					}
 					v, err := a.CallWithTimeout(target(o), o.Req, 1)
 					results[c] = append(results[c], callResult{op: o, value: v, err: err})
+					if o.Req.Mode == mFlood {
+						time.Sleep(200 * time.Millisecond) // the flooder outlasts the timeout by design; let it finish
+					}
 				}
 			}, Done: done}); err != nil {
 				t.Fatalf("start caller: %v", err)
@@ -433,6 +467,7 @@ func TestCorrelation(t *testing.T) {
 		nontrivial := false
 		for c := range results {
 			staleBefore := false
+			afterFlood := false
 			fmt.Fprintf(&sb, "c%d:", c)
 			for _, r := range results[c] {
 				o := r.op
@@ -442,7 +477,7 @@ func TestCorrelation(t *testing.T) {
 					nontrivial = true
 				}
 				switch o.Req.Mode {
-				case mLate, mTwice, mStale, mCross:
+				case mLate, mTwice, mStale, mCross, mFlood:
 					staleBefore = true
 				}
 				// 1. never somebody else's reply
@@ -458,7 +493,16 @@ func TestCorrelation(t *testing.T) {
 				if seen[id] > 1 {
 					t.Fatalf("request %s was presented to the callee %d times", o, seen[id])
 				}
-				// 3. completeness (only where no termination interferes)
+				// 3. completeness (only where no termination interferes). The response channel of a
+				// process is bounded and hand-over is non-blocking: right after a flood of stale
+				// replies the channel can still be full when the proper reply arrives, which is then
+				// refused - the call times out, which the property allows. The first call after a
+				// flood is therefore only held to "never somebody else's reply".
+				if afterFlood {
+					afterFlood = o.Req.Mode == mFlood
+					continue
+				}
+				afterFlood = o.Req.Mode == mFlood
 				if (o.Target == 1 && dies) || (o.Target == 2 && metaDies) {
 					continue
 				}
@@ -475,7 +519,7 @@ func TestCorrelation(t *testing.T) {
 					if r.err == nil || r.err.Error() != errFor(id).Error() {
 						t.Fatalf("caller %d: call %s was answered with an error response but returned (%#v, %v)", c, o, r.value, r.err)
 					}
-				case mLate, mNever:
+				case mLate, mNever, mFlood:
 					if r.err != gen.ErrTimeout {
 						t.Fatalf("caller %d: call %s was not answered within its timeout and yet returned (%#v, %v)\n%s", c, o, r.value, r.err, sb.String())
 					}
